@@ -545,3 +545,80 @@ def conf_pat(seed):
 
 
 PROFILES["conf_pat"] = conf_pat
+
+
+def conf_reload(seed):
+    """conformance profile for reloadconfig: the arbiter is booted from a real ini file; the file is edited (sections
+    added, removed, numprocesses changed, other keys changed) and reloaded, with worker deaths, ticks and other
+    requests in between and while a reload is in flight"""
+    import random
+    rng = random.Random(seed)
+    pool = ["a", "b", "c", "Web"]
+
+    def mk(n):
+        if rng.random() < 0.2:          # a singleton: at most one worker; a numprocesses-only edit to 2 is refused
+            return {"name": n, "np": rng.choice([0, 1, 1]), "G": 0.1, "W": 0, "singleton": True, "priority": 0,
+                    "autostart": True, "respawn": True, "max_retry": 5, "stop_signal": scenario.SIGTERM,
+                    "stop_children": False, "send_hup": False, "ver": 1}
+        return {"name": n, "np": rng.choice([0, 1, 1, 2, 3]), "G": rng.choice([0.1, 0.2, 0.3]),
+                "W": rng.choice([0, 0, 0, 1]), "singleton": False, "priority": rng.choice([0, 0, 1, 2]),
+                "autostart": rng.random() < 0.9, "respawn": rng.random() < 0.9, "max_retry": rng.choice([2, 5]),
+                "stop_signal": rng.choice([scenario.SIGTERM, scenario.SIGINT]), "stop_children": rng.random() < 0.2,
+                "send_hup": False, "ver": 1}
+    ws = [mk(n) for n in rng.sample(pool, rng.choice([1, 2, 2, 3]))]
+    sc = {"seed": seed, "file_mode": True, "watchers": [dict(w) for w in ws], "check_delay": rng.choice([0.5, 1.0]),
+          "warmup_delay": rng.choice([0, 0, 1]), "stubborn": [n for n in pool if rng.random() < 0.25],
+          "obeys": [True], "instant_death": rng.random() < 0.15, "script": [{"op": "boot"}, {"op": "tick", "n": rng.randint(0, 6)}]}
+    s = sc["script"]
+    undo = []
+    for _ in range(rng.randint(2, 6)):
+        r = rng.random()
+        have = [w["name"] for w in ws]
+        free = [n for n in pool if n not in have]
+        if r < 0.55:
+            for _e in range(rng.choice([1, 1, 2])):
+                have = [w["name"] for w in ws]
+                free = [n for n in pool if n not in have]
+                e = rng.random()
+                if e < 0.25 and free:
+                    ws.append(mk(rng.choice(free)))
+                elif e < 0.4 and len(ws) > 1:
+                    ws.pop(rng.randrange(len(ws)))
+                elif e < 0.7:
+                    w = rng.choice(ws)
+                    w["np"] = rng.choice([v for v in ((0, 1, 2) if w["singleton"] else (0, 1, 2, 3)) if v != w["np"]])
+                    undo.append((w, 1)) if w["singleton"] and w["np"] > 1 else None
+                elif e < 0.85:
+                    rng.choice(ws)["ver"] += 1
+                else:
+                    w = rng.choice(ws)
+                    k = rng.choice(["G", "W", "priority", "stop_signal"])
+                    w[k] = {"G": rng.choice([0.1, 0.2, 0.3]), "W": rng.choice([0, 1]),
+                            "priority": rng.choice([0, 1, 2]), "stop_signal": rng.choice([scenario.SIGTERM, scenario.SIGINT,
+                                                                                         scenario.SIGQUIT])}[k]
+            q = {"op": "reloadcfg", "watchers": [dict(w) for w in ws], "waiting": rng.random() < 0.5}
+            for w, v in undo:          # (the next version of the file takes the refused value back)
+                w["np"] = v
+            del undo[:]
+            if rng.random() < 0.4:
+                q["drain"] = False
+                s.append(q)
+                s.append({"op": "run", "n": rng.randint(1, 4)})
+            else:
+                s.append(q)
+        elif r < 0.7 and have:
+            d = {"op": "die", "sel": [rng.choice(have), rng.randint(0, 2)], "status": rng.choice(scenario.EXIT_STATUSES)}
+            if rng.random() < 0.4:
+                d["k"] = rng.randint(1, 8)
+            s.append(d)
+        elif r < 0.85 and have:
+            c = rng.choice(["status", "list", "incr", "stop", "start", "numprocesses", "restart"])
+            s.append({"op": "req", "cmd": c, "props": {"name": rng.choice(have), "waiting": rng.random() < 0.5}})
+        else:
+            s.append({"op": "tick", "n": rng.randint(1, 6)})
+    s.append({"op": "tick", "n": 14})
+    s.append({"op": "end", "xprobe": False, "passes": 1})
+    return sc
+
+
+PROFILES["conf_reload"] = conf_reload
